@@ -3,6 +3,7 @@ import Driver.Proto
 import GraphSlam.Model.Chi2
 import GraphSlam.Model.Ctl
 import Driver.Asm
+import GraphSlam.Model.NumJac
 
 /-! Model driver: one request per input line, one reply per output line.
 
@@ -10,6 +11,7 @@ import Driver.Asm
   names                                  list generated definitions
   sum <hexfloat>*                        Model.graphChi2 (Python `sum`) at Float
   asm <graph snapshot>                   Model.contribs / accumulate / fillGradient / fillHessian (see Driver/Asm.lean)
+  fd <eps> <m> <err0>*m <errd>*m         Model.fdColumn: one column of the numerical Jacobian
   ctl <tol> <eps> <maxIter> <chi2>*      Model.optimizeCtl: the report of Graph.optimize from the chi2 sequence
 -/
 
@@ -42,6 +44,12 @@ def handle (line : String) : String :=
       | .error _ => "err IndexError"
     | _, _, _, _ => "err bad-args"
   | "asm" :: rest => handleAsm rest
+  | "fd" :: eps :: m :: rest =>
+    match parseFloat eps, m.toNat?, parseFloats rest with
+    | some e, some m, some a =>
+      let col := GraphSlam.Model.fdColumn e (fun i => a.getD i (0.0 / 0.0)) (fun i => a.getD (m + i) (0.0 / 0.0))
+      "ok " ++ fmtFloats ((Array.range m).map col)
+    | _, _, _ => "err bad-args"
   | ["names"] => "ok " ++ " ".intercalate GraphSlam.Gen.Dispatch.names
   | _ => "err bad-op"
 
